@@ -194,7 +194,7 @@ CHECKS = {
             # concurrent operations on a colliding pair (one linearizability slot with two keys)
             # a label carrying thousands of keys, one of them displaced by a colliding unlabelled key
             {"run": "^TestC15ManyKeys$", "name": "C15ManyKeys-for-C09", "n": {"quick": 300, "thorough": 3000}},
-            {"run": "^TestC08Linearizable$", "name": "C08Linearizable-for-C09", "n": {"quick": 6000, "thorough": 40000}},
+            {"run": "^TestC08Linearizable$", "name": "C08Linearizable-for-C09", "n": {"quick": 14000, "thorough": 60000}},
         ],
     },
     "C10": {
